@@ -231,7 +231,8 @@ def match_known(prop, signature, known):
         if k.get("property") != prop or k.get("status") != "known":
             continue
         m = k.get("match", {})
-        if all(signature.get(a) == b for a, b in m.items()):
+        # a list value = any of these (one mechanism seen through several oracles is ONE finding)
+        if all((signature.get(a) in b) if isinstance(b, list) else (signature.get(a) == b) for a, b in m.items()):
             return k
     return None
 
